@@ -15,6 +15,10 @@ _UPTO_EVAL = ["FuncsTak.lean", "FuncsOver.lean", "FuncsMove.lean", "FuncsSym.lea
 # Third round (work package "gen3"): FuncsApply (Slides.Iterator, Position.analyze, Position.MovePreallocated) is the last
 # generated file and imports all the others.
 _ALL_APPLY = _UPTO_EVAL + ["FuncsPos.lean", "FuncsRoad.lean", "FuncsMoveGen.lean", "FuncsSymMove.lean", "FuncsProve.lean", "FuncsApply.lean"]
+# Fourth round (work package "gen4"): FuncsThreat (ai.CountThreats) and FuncsHeur (ai.evaluate with mobility, scoreGroups,
+# scoreThreats, computeInfluence / computeControl, scoreControl, the init that builds DefaultWeights) come last.
+_ALL_THREAT = _ALL_APPLY + ["FuncsThreat.lean"]
+_ALL_HEUR = _ALL_THREAT + ["FuncsHeur.lean"]
 _GEN = {
     "C01": (_ALL_APPLY, ["FNTAK", "FNPOS", "FNAPPLY"]),
     "C02": (_UPTO_EVAL + ["FuncsPos.lean", "FuncsRoad.lean"], ["FNTAK", "FNOVER", "FNROAD"]),
@@ -25,7 +29,8 @@ _GEN = {
     "C15": (["FuncsTak.lean", "FuncsMove.lean", "FuncsSym.lean"], ["FNSYM"]),
     "C20": (["FuncsTak.lean", "FuncsMove.lean", "FuncsFPA.lean"], ["FNMOVE", "FNFPA"]),
     "C08": (_ALL_APPLY, ["FNHASH", "FNPOS", "FNAPPLY"]),
-    "C18": (["FuncsTak.lean", "FuncsOver.lean", "FuncsEval.lean"], ["FNEVAL"]),
+    "C18": (_ALL_HEUR, ["FNEVAL", "FNHEUR"]),
+    "C19": (_ALL_THREAT, ["FNTHREAT"]),
 }
 for _pid in list(PROPS):
     _files, _gens = _GEN.get(_pid, ([], []))
